@@ -513,7 +513,7 @@ fn run_inner(case: &Case, root: &Path, thorough: bool) -> Result<Stats, Failure>
             // the worker died (abort / OOM kill) while processing fault i: loud failure
             stats.bump("c10.loud_abort");
             start = i + 1;
-        } else if start < nfaults && job.start == start {
+        } else if start < nfaults && job.start == start && retry_idx != Some(start) {
             // no progress at all: harness problem
             return Err(fail("HARNESS: C10 worker made no progress".into()));
         }
